@@ -30,6 +30,25 @@ use std::{
 };
 
 const UNTIMED_T: u64 = 3_600_000;
+const W40: u64 = 1 << 40;
+const W41: u64 = 1 << 41;
+
+/// Identifiers on the wire (see `wid`/`rid` in coq/Ts/Glue.v): values near the top of the usize
+/// range are written as 2^41 + (2^64 - id).
+fn wid(r: u64) -> u64 {
+    if r < W40 {
+        r
+    } else {
+        W41 + 0u64.wrapping_sub(r)
+    }
+}
+fn rid(w: u64) -> u64 {
+    if w < W40 {
+        w
+    } else {
+        0u64.wrapping_sub(w - W41)
+    }
+}
 const JITTER_MS: u64 = 45;
 
 struct Flag(AtomicBool);
@@ -67,7 +86,11 @@ impl World {
     fn new(ka: bool, t_ms: u64, n0: u64) -> World {
         let flag = Arc::new(Flag(AtomicBool::new(false)));
         World {
-            svc: VerifService::new(Duration::from_millis(t_ms), ka, n0 as usize),
+            svc: VerifService::new(
+                Duration::from_millis(t_ms),
+                ka,
+                (if n0 < W40 { n0 } else { 0u64.wrapping_sub(n0 - W40) }) as usize,
+            ),
             ka,
             peers: HashMap::new(),
             rev: HashMap::new(),
@@ -111,14 +134,14 @@ impl World {
                     VerifServiceEvent::ConnectionEstablished(p) => outs.push([1, self.pidx(&p), 0]),
                     VerifServiceEvent::ConnectionClosed(p) => outs.push([2, self.pidx(&p), 0]),
                     VerifServiceEvent::SubstreamOpened(p, dir, sub) => {
-                        outs.push([3, self.pidx(&p), dir.map(|d| d as u64 + 1).unwrap_or(0)]);
+                        outs.push([3, self.pidx(&p), dir.map(|d| wid(d as u64) + 1).unwrap_or(0)]);
                         // the protocol keeps the substream (it carries the lifetime permit)
                         match conn_of_sub.and_then(|c| self.conns.get_mut(&c)) {
                             Some(env) if self.ka => env.subs.push(sub),
                             _ => drop(sub),
                         }
                     }
-                    VerifServiceEvent::SubstreamOpenFailure(id) => outs.push([4, id as u64, 0]),
+                    VerifServiceEvent::SubstreamOpenFailure(id) => outs.push([4, wid(id as u64), 0]),
                     VerifServiceEvent::DialFailure(p) => outs.push([5, self.pidx(&p), 0]),
                 },
                 Ok(Poll::Pending) =>
@@ -159,7 +182,7 @@ impl World {
         for c in cs {
             out.extend(c);
         }
-        out.push(self.svc.next_substream_id() as u64);
+        out.push(wid(self.svc.next_substream_id() as u64));
         let mut tk: Vec<(u64, u64)> =
             self.svc.tracked().into_iter().map(|(p, c)| (self.pidx(&p), c as u64)).collect();
         tk.sort();
@@ -184,7 +207,7 @@ impl World {
             1 => {
                 let (p, c) = (op[2], op[3]);
                 let peer = self.peer(p);
-                let conn = self.svc.inject_established(peer, c as usize, c % 2 == 0);
+                let conn = self.svc.inject_established_with_capacity(peer, c as usize, c % 2 == 0, 4);
                 self.conns.insert(c, ConnEnv { conn, others: Vec::new(), subs: Vec::new() });
                 self.live.push((p, c));
             }
@@ -206,7 +229,7 @@ impl World {
                 }
             }
             4 => {
-                let (id, m) = (op[2], op[3] != 0);
+                let (id, m) = (rid(op[2]), op[3] != 0);
                 match self.pending.remove(&id) {
                     Some((p, c, permit)) => {
                         let peer = self.peer(p);
@@ -217,8 +240,8 @@ impl World {
                 }
             }
             5 => {
-                self.svc.inject_open_failure(op[2] as usize);
-                self.pending.remove(&op[2]);
+                self.svc.inject_open_failure(rid(op[2]) as usize);
+                self.pending.remove(&rid(op[2]));
             }
             6 => {
                 let peer = self.peer(op[2]);
@@ -228,10 +251,11 @@ impl World {
                 let peer = self.peer(op[2]);
                 let svc = &mut self.svc;
                 match catch_unwind(AssertUnwindSafe(|| svc.open_substream(peer))) {
-                    Ok(Ok(id)) => outs.push([6, 0, id as u64]),
+                    Ok(Ok(id)) => outs.push([6, 0, wid(id as u64)]),
                     Ok(Err(1)) => outs.push([6, 1, 0]),
                     Ok(Err(2)) => outs.push([6, 2, 0]),
-                    Ok(Err(_)) => outs.push([6, 3, 0]),
+                    Ok(Err(3)) => outs.push([6, 3, 0]),
+                    Ok(Err(_)) => outs.push([6, 4, 0]),
                     Err(_) => outs.push([8, 0, 0]),
                 }
             }
@@ -251,6 +275,28 @@ impl World {
                 _ => outs.push([9, 0, 0]),
             },
             11 => self.svc.bump_counter(op[2] as usize),
+            13 => {
+                // open_substream while the primary's (tiny) command channel is full
+                let peer = self.peer(op[2]);
+                let prim = self
+                    .svc
+                    .contexts()
+                    .into_iter()
+                    .find(|(p, _, _)| *p == peer)
+                    .map(|(_, prim, _)| prim.0 as u64);
+                if let Some(env) = prim.and_then(|c| self.conns.get(&c)) {
+                    let _ = env.conn.fill();
+                }
+                let svc = &mut self.svc;
+                match catch_unwind(AssertUnwindSafe(|| svc.open_substream(peer))) {
+                    Ok(Ok(id)) => outs.push([6, 0, wid(id as u64)]),
+                    Ok(Err(1)) => outs.push([6, 1, 0]),
+                    Ok(Err(2)) => outs.push([6, 2, 0]),
+                    Ok(Err(3)) => outs.push([6, 3, 0]),
+                    Ok(Err(_)) => outs.push([6, 4, 0]),
+                    Err(_) => outs.push([8, 0, 0]),
+                }
+            }
             12 => match self.conns.get_mut(&op[2]) {
                 // shut down the write half of a held substream (tcp::Substream::poll_shutdown through
                 // the public AsyncWrite impl), to completion whatever its io result, and keep holding it
@@ -290,7 +336,7 @@ impl World {
         for c in ids {
             let cmds = self.conns.get_mut(&c).unwrap().conn.drain();
             for cmd in cmds.into_iter().flatten() {
-                outs.push([7, c, cmd.substream_id as u64]);
+                outs.push([7, c, wid(cmd.substream_id as u64)]);
                 // only open_substream(p) produces commands, and channels are drained after every op
                 let p = if op[1] == 7 { op[2] } else { 999_999 };
                 let _ = (cmd.connection_id, cmd.keep_alive);
@@ -314,7 +360,7 @@ fn op_len(tag: u64) -> Option<usize> {
         1 | 2 => 2,
         3 => 3,
         4 => 2,
-        5..=12 => 1,
+        5..=13 => 1,
         _ => return None,
     })
 }
@@ -339,7 +385,15 @@ fn parse_case(c: &[u64]) -> Option<(bool, u64, u64, Vec<Vec<u64>>)> {
             return None;
         }
         let op: Vec<u64> = c[i..i + 2 + len].to_vec();
-        if dt >= 100_000_000 || op[2..].iter().any(|x| *x >= 1_000_000) {
+        let id_op = tag == 4 || tag == 5;
+        let bad = op[2..].iter().enumerate().any(|(j, x)| {
+            if id_op && j == 0 {
+                !(*x < 1_000_000 || (*x > W41 && *x < W41 + 2_000_000))
+            } else {
+                *x >= 1_000_000
+            }
+        });
+        if dt >= 100_000_000 || bad {
             return None;
         }
         if tag == 1 && !est.insert(op[3]) {
@@ -348,7 +402,8 @@ fn parse_case(c: &[u64]) -> Option<(bool, u64, u64, Vec<Vec<u64>>)> {
         ops.push(op);
         i += 2 + len;
     }
-    if i != c.len() || n0 >= 1_000_000 || t >= 100_000_000 || t == 0 {
+    let n0_ok = n0 < 1_000_000 || (n0 > W40 && n0 < W40 + 1_000_000);
+    if i != c.len() || !n0_ok || t >= 100_000_000 || t == 0 {
         return None;
     }
     Some((ka, t, n0, ops))
@@ -402,18 +457,19 @@ impl Gen {
                     },
                 40..=54 =>
                     if !pend.is_empty() {
-                        Some(vec![dt, 4, pend[r.below(pend.len() as u64) as usize], r.chance(85) as u64])
+                        Some(vec![dt, 4, wid(pend[r.below(pend.len() as u64) as usize]), r.chance(85) as u64])
                     } else {
                         None
                     },
                 55..=61 =>
                     if !pend.is_empty() {
-                        Some(vec![dt, 5, pend[r.below(pend.len() as u64) as usize]])
+                        Some(vec![dt, 5, wid(pend[r.below(pend.len() as u64) as usize])])
                     } else {
                         None
                     },
                 62..=63 => Some(vec![dt, 6, p]),
-                64..=81 => Some(vec![dt, 7, p]),
+                64..=79 => Some(vec![dt, 7, p]),
+                80..=81 => Some(vec![dt, 13, p]),
                 82..=86 =>
                     if !w.conns.is_empty() {
                         let cs: Vec<u64> = w.conns.keys().copied().collect();
@@ -521,7 +577,29 @@ fn runtime() -> tokio::runtime::Runtime {
 }
 
 /// Runs a stored case (re-running it while the timing was off).
+/// Report level (the reporting side of ProtocolSet under back-pressure): the case as run and its trace.
+fn run_report_case(rt: &tokio::runtime::Runtime, c: &[u64]) -> (Vec<u64>, Vec<u64>) {
+    match crate::c08_report::parse(c) {
+        Some((n, cap, ops)) => crate::c08_report::run(rt, n, cap, &ops),
+        None => (c.to_vec(), vec![0]),
+    }
+}
+
 fn run_stored(rt: &tokio::runtime::Runtime, c: &[u64]) -> Vec<u64> {
+    if c.first() == Some(&2) {
+        return run_report_case(rt, c).1;
+    }
+    if c.first() == Some(&4) {
+        // end to end: two real nodes, real time
+        return crate::c09_e2e::run(c);
+    }
+    if c.first() == Some(&3) {
+        // composed: real ProtocolSets -> real bounded channel -> real TransportService
+        return match crate::c08_compose::parse(c) {
+            Some((ka, n0, ops)) => crate::c08_compose::run(rt, ka, n0, crate::c08_compose::Src::Fixed(&ops)).1,
+            None => vec![0],
+        };
+    }
     let Some((ka, t, n0, ops)) = parse_case(c) else { return vec![0] };
     let mut last = vec![0];
     for _ in 0..6 {
@@ -537,7 +615,8 @@ fn run_stored(rt: &tokio::runtime::Runtime, c: &[u64]) -> Vec<u64> {
 fn gen_one(rt: &tokio::runtime::Runtime, mut rng: Rng, timed: bool, thorough: bool) -> (Vec<u64>, Vec<u64>) {
     let ka = rng.chance(70);
     let t_ms = if timed { rng.pick(&[100u64, 300, 300, 500]) } else { UNTIMED_T };
-    let n0 = rng.pick(&[0u64, 0, 7, 1000]);
+    // the id counter starts small, or a few below 2^64 so that it wraps during the case
+    let n0 = rng.pick(&[0u64, 0, 7, 1000, W40 + 1, W40 + 3]);
     let third = !timed && rng.chance(10);
     let garbage = !timed && rng.chance(8);
     let nops = if timed { rng.range(6, 14) } else if thorough { rng.range(10, 120) } else { rng.range(8, 60) } as usize;
@@ -565,6 +644,12 @@ pub fn main(args: &Args, c09: bool) {
         stored = read_cases(Path::new(d));
     }
     for c in &stored {
+        if c.first() == Some(&2) {
+            // stored report-level cases are re-masked for this run's protocol table order
+            let (c2, t) = catch_unwind(AssertUnwindSafe(|| run_report_case(&rt, c))).unwrap_or((c.clone(), vec![PANIC_MARK]));
+            out.emit(&c2, &t);
+            continue;
+        }
         let t = catch_unwind(AssertUnwindSafe(|| run_stored(&rt, c))).unwrap_or(vec![PANIC_MARK]);
         out.emit(c, &t);
     }
@@ -578,6 +663,29 @@ pub fn main(args: &Args, c09: bool) {
         let (c, t) = catch_unwind(AssertUnwindSafe(|| gen_one(&rt, r, false, thorough)))
             .unwrap_or((vec![0], vec![PANIC_MARK]));
         out.emit(&c, &t);
+    }
+    // report level: the real ProtocolSet reporting into small, slowly drained protocol channels
+    if !c09 {
+        let mut rr = Rng::new(seed ^ 0x8e90);
+        for _ in 0..(ncases / 3) {
+            let mut r = rr.fork();
+            let c = crate::c08_report::gen(&mut r, thorough);
+            let (c, t) = catch_unwind(AssertUnwindSafe(|| run_report_case(&rt, &c))).unwrap_or((c.clone(), vec![PANIC_MARK]));
+            out.emit(&c, &t);
+        }
+    }
+    // composed: real ProtocolSets feed the real TransportService through its real bounded channel
+    if !c09 {
+        let mut rr = Rng::new(seed ^ 0xc0b0);
+        for _ in 0..(ncases / 5) {
+            let mut r = rr.fork();
+            let ka = r.chance(70);
+            let n0 = r.pick(&[0u64, 0, 7, 1000]);
+            let g = crate::c08_compose::Gen::new(r.fork(), thorough);
+            let (c, t) = catch_unwind(AssertUnwindSafe(|| crate::c08_compose::run(&rt, ka, n0, crate::c08_compose::Src::Gen(g))))
+                .unwrap_or((vec![0], vec![PANIC_MARK]));
+            out.emit(&c, &t);
+        }
     }
     // timed cases: real time, many threads (they mostly sleep)
     let seeds: Vec<Rng> = (0..n_timed).map(|_| rng.fork()).collect();
@@ -607,5 +715,31 @@ pub fn main(args: &Args, c09: bool) {
     }
     for r in results.lock().unwrap().iter().flatten() {
         out.emit(&r.0, &r.1);
+    }
+    // end to end: two real nodes over loopback TCP / WebSocket, real time
+    if c09 {
+        let mut rr = Rng::new(seed ^ 0xe2e9);
+        let cases: Vec<Vec<u64>> = (0..(ncases / 8).max(2)).map(|_| crate::c09_e2e::gen(&mut rr, &[0, 0, 1])).collect();
+        let results: Arc<Mutex<Vec<Option<Vec<u64>>>>> = Arc::new(Mutex::new(vec![None; cases.len()]));
+        let next = Arc::new(std::sync::atomic::AtomicUsize::new(0));
+        let cases = Arc::new(cases);
+        let mut hs = Vec::new();
+        for _ in 0..10.min(cases.len()) {
+            let (results, next, cases) = (results.clone(), next.clone(), cases.clone());
+            hs.push(std::thread::spawn(move || loop {
+                let i = next.fetch_add(1, Ordering::SeqCst);
+                if i >= cases.len() {
+                    break;
+                }
+                let t = catch_unwind(AssertUnwindSafe(|| crate::c09_e2e::run(&cases[i]))).unwrap_or(vec![PANIC_MARK]);
+                results.lock().unwrap()[i] = Some(t);
+            }));
+        }
+        for h in hs {
+            let _ = h.join();
+        }
+        for (c, t) in cases.iter().zip(results.lock().unwrap().iter()) {
+            out.emit(c, t.as_ref().unwrap_or(&vec![PANIC_MARK]));
+        }
     }
 }
